@@ -128,6 +128,108 @@ func execSeg(c *ctx, line string) (obs string) {
 	mf := vfs.files[fname]
 	var rd types.SegmentReader = sw
 	acked := map[uint64]string{} // oracle: acked entries (tail mode)
+	// C10 (byte level, coq/Seg/FailFacts.v): what a recovery may present.  pend = the
+	// batches whose write reached the file but whose fsync failed, since the last
+	// successful append; under = the failed batch (if any) that the most recent write
+	// was written over (a crash image of that write may still hold it complete);
+	// damaged = the file was edited by X / T (corrupt stream), the oracle is then off.
+	var pend [][]types.LogEntry
+	var under []types.LogEntry
+	lastWriteFailed := false
+	damaged := false
+	checkRecovered := func(afterCrash bool) {
+		if sw == nil || damaged {
+			return
+		}
+		last := sw.LastIndex()
+		get := func(idx uint64) (string, bool) {
+			pb, err := sw.GetLog(idx)
+			if err != nil {
+				return "", false
+			}
+			defer pb.Close()
+			return hx(pb.Bs), true
+		}
+		// candidate tails: none, the last failed write, and (crash image of the last
+		// write) the failed batch underneath it
+		cands := [][]types.LogEntry{nil}
+		if len(pend) > 0 && (!afterCrash || lastWriteFailed) {
+			cands = append(cands, pend[len(pend)-1])
+		}
+		if afterCrash && under != nil {
+			cands = append(cands, under)
+		}
+		okWith := func(tail []types.LogEntry) bool {
+			first := last + 1
+			if len(tail) > 0 {
+				if tail[len(tail)-1].Index != last {
+					return false
+				}
+				first = tail[0].Index
+			}
+			for idx := base; last != 0 && idx <= last; idx++ {
+				got, ok := get(idx)
+				if !ok {
+					return false
+				}
+				want, have := "", false
+				if idx >= first {
+					want, have = hx(tail[idx-first].Data), true
+				} else {
+					want, have = acked[idx]
+				}
+				if !have || got != want {
+					return false
+				}
+			}
+			return true
+		}
+		good := -1
+		for k, t := range cands {
+			if okWith(t) {
+				good = k
+				break
+			}
+		}
+		if good < 0 {
+			c.witness("C10", "failed-batch-partly-recovered",
+				fmt.Sprintf("after recovery the segment presents entries up to %d that are neither the acknowledged entries nor those plus the whole last failed batch", last), line)
+		} else if good > 0 {
+			c.stat("failed_batch_recovered_whole")
+			for _, e := range cands[good] {
+				acked[e.Index] = hx(e.Data)
+			}
+		}
+		for idx := range acked {
+			if idx > last {
+				delete(acked, idx)
+			}
+		}
+		pend, under, lastWriteFailed = nil, nil, false
+	}
+	// noteWrite: an append / force-seal returned; if it changed the file, its batch
+	// (es; none for a force-seal) was written
+	noteWrite := func(before []byte, es []types.LogEntry, err error) {
+		if bytes.Equal(before, mf.data) {
+			return
+		}
+		under = nil
+		if len(pend) > 0 {
+			under = pend[len(pend)-1]
+		}
+		lastWriteFailed = err != nil
+		if err != nil {
+			if len(es) > 0 {
+				pend = append(pend, es)
+				c.stat("failed_fsync_batches")
+			}
+		} else {
+			if len(pend) > 0 {
+				c.stat("write_over_failed_batch")
+			}
+			pend = nil
+		}
+	}
 	ops := f[6:]
 	for i := 0; i < len(ops); i++ {
 		switch ops[i] {
@@ -142,8 +244,10 @@ func execSeg(c *ctx, line string) (obs string) {
 				out = append(out, "badinput")
 				continue
 			}
+			before := append([]byte(nil), mf.data...)
 			err := sw.Append(es)
 			out = append(out, segErrKind(err))
+			noteWrite(before, es, err)
 			if err == nil {
 				for _, e := range es {
 					acked[e.Index] = hx(e.Data)
@@ -164,12 +268,16 @@ func execSeg(c *ctx, line string) (obs string) {
 				out = append(out, "badinput")
 				continue
 			}
+			before := append([]byte(nil), mf.data...)
 			is, err := sw.ForceSeal()
 			if err != nil {
 				out = append(out, segErrKind(err))
 			} else {
 				out = append(out, fmt.Sprintf("ok:%x", is))
 			}
+			// a force-seal writes an index frame and a commit frame: no entries, but it
+			// covers the start of a failed batch like an append does
+			noteWrite(before, nil, err)
 		case "Q":
 			sealed, is, _ := sw.Sealed()
 			if sealed {
@@ -213,6 +321,7 @@ func execSeg(c *ctx, line string) (obs string) {
 			} else {
 				out = append(out, "ok")
 				sw, rd = nsw, nsw
+				checkRecovered(false)
 			}
 		case "C":
 			mask, _ := new(big.Int).SetString(ops[i+1], 16)
@@ -260,6 +369,7 @@ func execSeg(c *ctx, line string) (obs string) {
 			} else {
 				out = append(out, "ok")
 				sw, rd = nsw, nsw
+				checkRecovered(true)
 			}
 		case "O":
 			mn, mx := parseU(ops[i+1]), parseU(ops[i+2])
@@ -284,6 +394,7 @@ func execSeg(c *ctx, line string) (obs string) {
 		case "X":
 			off, bs := int(parseU(ops[i+1])), parseHex(ops[i+2])
 			i += 2
+			damaged = true
 			if off+len(bs) > len(mf.data) {
 				mf.data = append(mf.data, make([]byte, off+len(bs)-len(mf.data))...)
 			}
@@ -291,6 +402,7 @@ func execSeg(c *ctx, line string) (obs string) {
 		case "T":
 			n := int(parseU(ops[i+1]))
 			i++
+			damaged = true
 			if n < len(mf.data) {
 				mf.data = mf.data[:n]
 			}
@@ -462,7 +574,21 @@ func genSegCrash(c *ctx, emit func(string)) {
 		emit(strings.Join(ops, " "))
 		c.stat("zero_run_scenarios")
 	}
+	// failed-append scenarios (C10 byte level, coq/Seg/FailFacts.v): a long batch whose
+	// fsync fails, a shorter one whose fsync fails, an even shorter one that succeeds,
+	// frame boundaries chosen to coincide; then recovery with and without a crash image
+	nfail := 24
+	if c.tier == "thorough" {
+		nfail = 400
+	}
+	for i := 0; i < nfail; i++ {
+		emit(genFailChain(r, c, i))
+	}
 	for i := 0; i < c.n; i++ {
+		if r.Intn(5) == 0 {
+			emit(genFailMix(r, c))
+			continue
+		}
 		hdr, base, limit := segHeader(r)
 		if limit < 512 {
 			limit = 4096
@@ -530,6 +656,216 @@ func genSegCrash(c *ctx, emit func(string)) {
 		ops = append(ops, "F", "D 0 0")
 		emit(strings.Join(ops, " "))
 	}
+}
+
+// frameLen is the size of an entry frame with an n-byte payload: 8-byte header,
+// payload, padding to a multiple of 8.  A commit frame is 8 bytes.
+func frameLen(n int) int { return 8 + n + (8-n%8)%8 }
+
+// plainPayload: random bytes, none of which is a frame type (so that a remnant
+// never parses as frames by accident; the aligned scenarios do it on purpose)
+func plainPayload(r *rand.Rand, n int) string {
+	b := make([]byte, n)
+	for i := range b {
+		b[i] = byte(4 + r.Intn(252))
+	}
+	return hx(b)
+}
+
+func batchOf(r *rand.Rand, first uint64, sizes []int) string {
+	var sb strings.Builder
+	fmt.Fprintf(&sb, "A %x", len(sizes))
+	for j, n := range sizes {
+		fmt.Fprintf(&sb, " %x %s", first+uint64(j), plainPayload(r, n))
+	}
+	return sb.String()
+}
+
+// allOnes is a crash mask that keeps every chunk of a file of the given size limit
+func allOnes(limit int) *big.Int {
+	m := new(big.Int)
+	for k := 0; k < limit/8+64; k++ {
+		m.SetBit(m, k, 1)
+	}
+	return m
+}
+
+// genFailChain: [acknowledged batches] a (fsync fails) b (shorter, fsync fails) c (even
+// shorter, succeeds) with coinciding frame boundaries: b has the first j frames of a,
+// the j-th 8 bytes shorter, so b's commit frame ends where a's frame j+1 begins; c
+// likewise inside b.  Behind the commit of c lie [rest of b][commit b][rest of a]
+// [commit a], all on frame boundaries.  Then recovery (R, or C with a crash mask over
+// the last write), reads, and -- when the outcome is known -- one more append.
+func genFailChain(r *rand.Rand, c *ctx, variant int) string {
+	limit := []int{4096, 16384}[r.Intn(2)]
+	base := uint64(1 + r.Intn(1000))
+	ops := []string{fmt.Sprintf("seg %x %x 1 %x %x", base, r.Uint64()>>uint(r.Intn(64)), limit, limit)}
+	next := base
+	pos := 0 // offset of the next write
+	npre := r.Intn(3)
+	if variant%6 == 5 {
+		npre = 0 // the failed batches carry the file header
+	}
+	for b := 0; b < npre; b++ {
+		n := 1 + r.Intn(40)
+		ops = append(ops, batchOf(r, next, []int{n}))
+		if pos == 0 {
+			pos = 32
+		}
+		pos += frameLen(n) + 8
+		next++
+	}
+	if pos == 0 {
+		pos = 32 // header, written with the first batch
+		c.stat("failchain_with_header")
+	}
+	ka := 3 + r.Intn(3)
+	sa := make([]int, ka)
+	for k := range sa {
+		sa[k] = 17 + r.Intn(48)
+	}
+	j := 2 + r.Intn(ka-2) // b has j entries, 2 <= j < ka
+	sb := append([]int(nil), sa[:j]...)
+	sb[j-1] -= 8
+	i := 1 + r.Intn(j) // c has i entries, 1 <= i <= j
+	if variant%4 == 0 && i == j {
+		i = j - 1 // the classic shape: an entry frame of b survives behind c
+	}
+	sc := append([]int(nil), sb[:i]...)
+	sc[i-1] -= 8
+	fa, fb := "E s", "E s"
+	switch variant % 8 {
+	case 6:
+		fa = "E w" // a never reaches the file
+	case 7:
+		fb = "E w"
+	}
+	cFails := variant%5 == 4
+	ops = append(ops, fa, batchOf(r, next, sa), "L", fb, batchOf(r, next, sb), "L")
+	if cFails {
+		ops = append(ops, "E s", batchOf(r, next, sc), "L")
+	} else {
+		ops = append(ops, batchOf(r, next, sc), "L")
+	}
+	lenC := 8
+	for _, n := range sc {
+		lenC += frameLen(n)
+	}
+	known := true // do we know what recovery returns?
+	switch variant % 3 {
+	case 0:
+		ops = append(ops, "R")
+		c.stat("failchain_restart")
+	case 1:
+		ops = append(ops, "C "+allOnes(limit).Text(16))
+		c.stat("failchain_crash_complete")
+	default:
+		// crash image of the last write (c): lose its commit chunk, its first chunk, a
+		// random subset, or everything
+		m := allOnes(limit)
+		lo, hi := pos/8, (pos+lenC)/8
+		if pos == 32 {
+			lo = 0 // c carries the file header
+		}
+		switch r.Intn(4) {
+		case 0:
+			m.SetBit(m, hi-1, 0)
+		case 1:
+			m.SetBit(m, lo, 0)
+		case 2:
+			for k := lo; k < hi; k++ {
+				if r.Intn(3) == 0 {
+					m.SetBit(m, k, 0)
+				}
+			}
+		default:
+			for k := lo; k < hi; k++ {
+				m.SetBit(m, k, 0)
+			}
+		}
+		ops = append(ops, "C "+m.Text(16))
+		known = false
+		c.stat("failchain_crash_torn")
+	}
+	ops = append(ops, "L", "Q")
+	for idx := base; idx < next+uint64(ka)+1; idx++ {
+		ops = append(ops, fmt.Sprintf("G %x", idx))
+	}
+	ops = append(ops, "F")
+	if known {
+		// c (acknowledged, or failed but complete in the file) is there: LastIndex is
+		// c's last index and the next append continues behind it
+		after := next + uint64(i)
+		ops = append(ops, batchOf(r, after, []int{1 + r.Intn(24)}), "L", "R", "L", fmt.Sprintf("G %x", after), "F")
+	}
+	ops = append(ops, "D 0 0")
+	return strings.Join(ops, " ")
+}
+
+// genFailMix: a random sequence of appends, each succeeding or failing in its write
+// or its fsync (the failed ones rolled back: the next batch starts at the same index),
+// sizes in multiples of 8 so that frame boundaries often coincide; then a restart or a
+// crash image of the last write; reads.
+func genFailMix(r *rand.Rand, c *ctx) string {
+	limit := 4096
+	base := uint64(1 + r.Intn(1000))
+	ops := []string{fmt.Sprintf("seg %x %x 1 %x %x", base, r.Uint64()>>uint(r.Intn(64)), limit, limit)}
+	next := base
+	maxNext := next
+	n := 3 + r.Intn(6)
+	for b := 0; b < n; b++ {
+		k := 1 + r.Intn(4)
+		sizes := make([]int, k)
+		for x := range sizes {
+			sizes[x] = 8 * (1 + r.Intn(5))
+			if r.Intn(4) == 0 {
+				sizes[x] = 1 + r.Intn(40)
+			}
+		}
+		switch r.Intn(5) {
+		case 0, 1:
+			ops = append(ops, "E s", batchOf(r, next, sizes))
+		case 2:
+			ops = append(ops, "E w", batchOf(r, next, sizes))
+		default:
+			ops = append(ops, batchOf(r, next, sizes))
+			next += uint64(k)
+		}
+		if next+uint64(k) > maxNext {
+			maxNext = next + uint64(k)
+		}
+		if r.Intn(3) == 0 {
+			ops = append(ops, "L")
+		}
+	}
+	if r.Intn(2) == 0 {
+		ops = append(ops, "R")
+	} else {
+		m := new(big.Int)
+		mode := r.Intn(4)
+		for k := 0; k < limit/8+64; k++ {
+			bit := true
+			switch mode {
+			case 1:
+				bit = r.Intn(6) != 0
+			case 2:
+				bit = r.Intn(2) == 0
+			case 3:
+				bit = false
+			}
+			if bit {
+				m.SetBit(m, k, 1)
+			}
+		}
+		ops = append(ops, "C "+m.Text(16))
+	}
+	ops = append(ops, "L", "Q")
+	for idx := base; idx <= maxNext; idx++ {
+		ops = append(ops, fmt.Sprintf("G %x", idx))
+	}
+	ops = append(ops, "F", "D 0 0")
+	c.stat("failmix_lines")
+	return strings.Join(ops, " ")
 }
 
 // corrupt: valid files damaged by bit flips, splices, truncation, length edits,
